@@ -51,6 +51,21 @@ def gen_tasks(tier, seed):
                       "kwargs": {"k": k, "weight_type": "int", "elements_to_ignore": [e0], "optimization_options": nog}})
         tasks.append({**base, "cls": "MinFlowDecomp", "edges": wedges, "ignored": [e0],
                       "kwargs": {"weight_type": "int", "elements_to_ignore": [e0]}})
+        # zero-flow edges (flow = routes that do not cover every edge) together with ignored edge pairs: the
+        # decomposition must still put nothing on a non-ignored zero-flow edge
+        if len(routes) >= 2 and len(es) >= 3:
+            for _rep in range(2):
+                sub = rng.sample(routes, rng.choice([1, 2]))
+                zf = F.flow_from_routes(G, sub, [rng.choice((1, 2, 3)) for _ in sub])
+                if all(zf.values()):
+                    continue
+                zedges = I.with_flow(es, zf)
+                ign2 = [list(e) for e in rng.sample(es, 2)]
+                tasks.append({**base, "cls": "kFlowDecomp", "edges": zedges, "ignored": ign2,
+                              "kwargs": {"k": len(sub) + 1, "weight_type": "int", "elements_to_ignore": ign2, "optimization_options": nog}})
+                tasks.append({**base, "cls": "MinFlowDecomp", "edges": zedges, "ignored": ign2,
+                              "kwargs": {"weight_type": "int", "elements_to_ignore": ign2}})
+                tasks.append({**base, "cls": "kFlowDecomp", "edges": zedges, "kwargs": {"k": len(sub) + 1, "weight_type": "int", "optimization_options": nog}})
         # subpath constraint
         sp = rng.choice(I.contiguous_subpaths(es, 2))
         tasks.append({**base, "cls": "kFlowDecomp", "edges": wedges, "kwargs": {"k": k + 1, "weight_type": "int", "subpath_constraints": [sp], "optimization_options": nog}})
